@@ -1,6 +1,6 @@
 """Entries for checks/registry.py (family data/resp: C12 C13 C14 C17). Same format as checks/registry.py CHECKS."""
 
-FIX_COMMITS = ['2f0e4ad', '8464aa4', '39960f6', '2c1a5f0']          # resp.go, see proposed/known_findings_resp.json
+FIX_COMMITS = ['2f0e4ad', '8464aa4', '39960f6', '2c1a5f0']          # resp.go, see known_findings.json
 EXPORT_COMMITS = ['297da19', 'a86b006']                             # verif_export_resp.go (build tag verif), no hooks
 
 _COMMON = ('Resp.tla is the RESP2/RESP3 grammar as TLA+ operators: value trees over all type bytes, Encode(tree) as a token sequence, '
